@@ -26,127 +26,179 @@ def _bit(mask, t):
     return bool((mask >> t) & 1)
 
 
+def expected_round(case, with_faults=True):
+    """What the documentation says one run of the case must log, call by call:
+    list of (tick, [(box, nabe, idx, seen_box)], active_after, final_or_None).  Written from the docstrings of
+    Boxer.run/exen/end and the property text; uses only the documented pile (`ab.pile_of/split`)."""
+    boxes, first, ticks, endat, (style, mode, raises, enders, rerun, neighbour) = ab.parts(case)
+    if not with_faults:
+        raises, enders = [], []
+    raising = {}
+    for (b, nb, k, t, nm) in raises:
+        raising.setdefault((b, nb, k, t), nm)      # first entry wins
+    ending = {(b, nb, k) for (b, nb, k) in enders}
+    out = []
+    if not boxes:
+        return [(0, [], None, ("exc", "IndexError"))]
+    start = first if first >= 0 else 0
+    active = start
+    flag = False
+    for t in range(ticks + 1):
+        final = None
+        if t == 0:
+            pe, met = _predo(boxes, ab.pile_of(boxes, start), t)
+            E = [e + (start,) for e in pe]
+            after = start if met else None
+            if not met:
+                final = ("ret", False)
+        elif t == 1:
+            P = ab.pile_of(boxes, start)
+            E = [e + (start,) for e in _seq(boxes, P, "endo") + _seq(boxes, P, "redo")]
+            after = start
+        elif (endat >= 0 and t >= endat) or flag:
+            P = ab.pile_of(boxes, active)
+            E = [e + (active,) for e in _seq(boxes, list(reversed(P)), "exdo")]
+            after = None
+            final = ("ret", True)
+        else:
+            P = ab.pile_of(boxes, active)
+            scan, trans = [], None
+            for b in P:
+                scan += _acts(boxes, b, "afdo")
+                for j, (dest, mask) in enumerate(boxes[b][3]):
+                    scan.append((b, "godo", j))
+                    if _bit(mask, t):
+                        kept, left, arr = ab.split(boxes, active, dest)
+                        pe, met = _predo(boxes, arr, t)
+                        scan += pe
+                        if met:
+                            trans = (dest, kept, left, arr)
+                            break
+                if trans:
+                    break
+            if trans is None:
+                E = [e + (active,) for e in scan + _seq(boxes, P, "redo")]
+                after = active
+            else:
+                dest, kept, left, arr = trans
+                pre = scan + _seq(boxes, list(reversed(left)), "exdo") + _seq(boxes, list(reversed(kept)), "rexdo")
+                post = _seq(boxes, kept, "rendo") + _seq(boxes, arr, "endo") + _seq(boxes, ab.pile_of(boxes, dest), "redo")
+                E = [e + (active,) for e in pre] + [e + (dest,) for e in post]
+                after = dest
+        # an act that raises ends the call (and the run) right there; Boxer.run catches nothing
+        for i, (b, nb, k, seen) in enumerate(E):
+            nm = raising.get((b, nb, k, t))
+            if nm:
+                E = E[:i + 1]
+                after = seen
+                final = ("exc", nm)
+                break
+        if any((b, nb, k) in ending for (b, nb, k, _) in E):
+            flag = True
+        out.append((t, E, after, final))
+        if final is not None:
+            break
+        if after is not None:
+            active = after
+    return out
+
+
+CLAUSES = (("exit-bottom-up", ("exdo",)), ("enter-top-down", ("enmark", "endo")), ("rexit-bottom-up", ("rexdo",)),
+           ("reenter-top-down", ("remark", "rendo")), ("afdo-godo-predo-order", ("afdo", "godo", "predo")),
+           ("redo-top-down", ("redo",)))
+
+
+def _split_rounds(obs):
+    rounds, cur = [], []
+    for r in obs:
+        cur.append(r)
+        if not isinstance(r[0], int):
+            rounds.append(cur)
+            cur = []
+    if cur:
+        rounds.append(cur)
+    return rounds
+
+
 def oracle_case(case, obs):
-    """The property, clause by clause, on the implementation's event log.  Uses only the case (tree, masks,
-    documented pile) — never the Lean model."""
-    boxes, first, ticks, endat = case
+    """The property, clause by clause, on the implementation's event log.  Total: whatever the observation is,
+    the result is a list of clause names (an observation that cannot be accounted for is a violation)."""
+    try:
+        return _oracle_case(case, obs)
+    except Exception as ex:     # noqa
+        return ["oracle-cannot-account:" + type(ex).__name__]
+
+
+def _oracle_case(case, obs):
+    boxes, first, ticks, endat, (style, mode, raises, enders, rerun, neighbour) = ab.parts(case)
     bad = []
 
     def flag(c):
         if c not in bad:
             bad.append(c)
 
-    recs = [r for r in obs if isinstance(r[0], int)]
-    final = obs[-1]
-    if final[0] == "exc":
-        flag("exception-escaped")
-    start = first if first >= 0 else 0
-    active = start          # what the documentation says is active before each call
-    ended = False
-    for (t, act_after, evs) in recs:
-        evs = list(evs)
-        last = (t == recs[-1][0])
-        if t == 0:
-            # entry preconditions of the first pile, top-down, stop at first unmet one; nothing else
-            exp, met = _predo(boxes, ab.pile_of(boxes, start), t)
-            if evs != exp:
-                flag("first-predo-order")
-            if not met:
-                if not (last and final == ("ret", False)) or act_after is not None:
-                    flag("first-predo-failed-but-ran")
-                return bad
-            if last and final[0] == "ret":
-                flag("returned-early")
-            continue
-        if t == 1:
-            P = ab.pile_of(boxes, start)
-            exp = _seq(boxes, P, "endo") + _seq(boxes, P, "redo")
-            if [e for e in evs if e[1] in ("enmark", "endo")] != _seq(boxes, P, "endo"):
-                flag("first-entry-top-down")
-            elif evs != exp:
-                flag("first-pass-events")
-            if act_after != start:
-                flag("active-box")
-            continue
-        # loop pass
-        if endat >= 0 and t >= endat and not ended:
-            # end was desired before this pass: exit every active box exactly once, bottom-up, nothing else
-            ended = True
-            P = ab.pile_of(boxes, active)
-            exp = _seq(boxes, list(reversed(P)), "exdo")
-            if evs != exp:
-                flag("end-exits-active-once-bottom-up")
-            if final != ("ret", True) or act_after is not None:
+    exp = expected_round(case)
+    rounds = _split_rounds(obs)
+    want_rounds = 2 if (rerun and mode != 2) else 1
+    if len(rounds) != want_rounds:
+        flag("run-count")
+    for rnd in rounds:                     # a re-run of the same Boxer must do exactly what the first run did
+        recs = [r for r in rnd if isinstance(r[0], int)]
+        final = rnd[-1] if rnd and not isinstance(rnd[-1][0], int) else ("missing",)
+        efinal = next((f for (_, _, _, f) in exp if f is not None), ("live",))
+        if tuple(final) != tuple(efinal):
+            if final[0] == "exc":
+                flag("exception-escaped" if efinal[0] != "exc" else "exception-class")
+            elif efinal[0] == "exc":
+                flag("exception-swallowed")
+            elif efinal == ("ret", True) or final == ("ret", True):
                 flag("end-result")
-            break
-        # parse: afdo/godo/predo prefix, then (if a transition succeeded) the exit/entry block
-        P = ab.pile_of(boxes, active)
-        k = 0
-        while k < len(evs) and evs[k][1] in ("afdo", "godo", "predo"):
-            k += 1
-        prefix, rest = evs[:k], evs[k:]
-        # which transition (if any) should succeed according to masks and documented lists
-        exp_prefix = []
-        trans = None
-        for b in P:
-            exp_prefix += _acts(boxes, b, "afdo")
-            for j, (dest, mask) in enumerate(boxes[b][3]):
-                exp_prefix.append((b, "godo", j))
-                if _bit(mask, t):
-                    kept, left, arr = ab.split(boxes, active, dest)
-                    pe, met = _predo(boxes, arr, t)
-                    exp_prefix += pe
-                    if met:
-                        trans = (dest, kept, left, arr)
-                        break
-            if trans:
-                break
-        if prefix != exp_prefix:
-            flag("afdo-godo-predo-order")
-        if trans is None:
-            # no transition (none fired, or every fired one had an unmet entry precondition):
-            # NO exit or entry action may run
-            if any(e[1] in ENTRY_EXIT for e in evs):
-                flag("failed-predo-no-actions")
-            elif rest != _seq(boxes, P, "redo"):
-                flag("redo-top-down")
-            if act_after != active:
-                flag("active-box")
-        else:
-            dest, kept, left, arr = trans
-            ex = [e for e in rest if e[1] == "exdo"]
-            rx = [e for e in rest if e[1] == "rexdo"]
-            rn = [e for e in rest if e[1] in ("remark", "rendo")]
-            en = [e for e in rest if e[1] in ("enmark", "endo")]
-            if ex != _seq(boxes, list(reversed(left)), "exdo"):
-                flag("exit-bottom-up")
-            if en != _seq(boxes, arr, "endo"):
-                flag("enter-top-down")
-            if rx != _seq(boxes, list(reversed(kept)), "rexdo"):
-                flag("rexit-bottom-up")
-            if rn != _seq(boxes, kept, "rendo"):
-                flag("reenter-top-down")
-            D = ab.pile_of(boxes, dest)
-            exp = (_seq(boxes, list(reversed(left)), "exdo") + _seq(boxes, list(reversed(kept)), "rexdo")
-                   + _seq(boxes, kept, "rendo") + _seq(boxes, arr, "endo") + _seq(boxes, D, "redo"))
-            if not bad and rest != exp:
+            else:
+                flag("run-result")
+        if len(recs) != len(exp):
+            flag("record-count")
+        for (t, after, evs), (et, E, eafter, ef) in zip(recs, exp):
+            evs = [tuple(e) for e in evs]
+            got3 = [e[:3] for e in evs]
+            want3 = [e[:3] for e in E]
+            ended_pass = ef == ("ret", True)
+            if t != et:
+                flag("record-count")
+            any_clause = False
+            for name, nabes in CLAUSES:
+                if [e for e in got3 if e[1] in nabes] != [e for e in want3 if e[1] in nabes]:
+                    any_clause = True
+                    if ended_pass:
+                        flag("end-exits-active-once-bottom-up")
+                    elif t == 0:
+                        flag("first-predo-order")
+                    elif t == 1:
+                        flag("first-entry-top-down" if "endo" in nabes else "first-pass-events")
+                    elif not any(e[1] in ENTRY_EXIT for e in want3) and any(e[1] in ENTRY_EXIT for e in got3):
+                        flag("failed-predo-no-actions")
+                    else:
+                        flag(name)
+            if not any_clause and got3 != want3:
                 flag("transition-phase-order")
-            if act_after != dest:
+            if got3 == want3:
+                # which box was active when each act ran: self.box changes after exits/re-exits, before entries
+                if [e[3] for e in evs] != [e[3] for e in E]:
+                    flag("active-box-switch-point")
+                if t > 0 and [e[4] for e in evs] != [e[3] for e in E]:
+                    flag("hold-active-switch-point")
+            if after != eafter:
                 flag("active-box")
-            active = dest
-        if last and final[0] == "ret":
-            flag("returned-early")
-    # every act of one box in one context in declaration order, whatever else happened
-    for (t, _, evs) in recs:
-        run = {}
-        for (b, nabe, k) in evs:
-            if nabe in ("godo", "predo"):
-                continue
-            n = dict(zip(ab.NABES8, boxes[b][1]))[nabe]
-            want = run.get((b, nabe), 0)
-            if k != want % max(n, 1):
-                flag("declaration-order")
-            run[(b, nabe)] = want + 1
+            # every act of one box in one context in declaration order, in whole rounds
+            if ef is None or ef[0] != "exc":
+                run = {}
+                for (b, nabe, k) in got3:
+                    if nabe in ("godo", "predo"):
+                        continue
+                    n = dict(zip(ab.NABES8, boxes[b][1])).get(nabe, 0) if 0 <= b < len(boxes) else 0
+                    w = run.get((b, nabe), 0)
+                    if k != w % max(n, 1):
+                        flag("declaration-order")
+                    run[(b, nabe)] = w + 1
     return bad
 
 
@@ -175,25 +227,32 @@ class C25(core.Check):
                   "kept re-exited bottom-up then re-entered top-down, arrived entered top-down, in that phase order, computed from the ACTIVE pile), "
                   "failed_predo_no_actions + failed_attempt_is_skipped (no accepted transition => no exit/entry action at all), "
                   "end_exits_active_once_bottom_up + ended_pass_ends, acts_in_declaration_order (whole rounds 0..n-1 of each act list), first_entry_top_down. "
-                  "All unconditional on the fixed tree (4 fix: commits on fix/box); no _partial theorems. The model is tied to the code by a seeded "
+                  "Faults and side effects (runX): runX_without_faults_is_run, fault_cuts_the_pass (a raising act only cuts the pass: every record is a prefix of the fault-free pass), "
+                  "cut_stops_at_first_raising_act, active_box_switches_between_exits_and_entries (boxer.box changes after exits/re-exits, before re-entries/entries), "
+                  "end_set_by_an_act_ends_next_pass. "
+                  "All unconditional on the fixed tree (4 fix: commits, now in main); no _partial theorems. The model is tied to the code by a seeded "
                   "differential run of the compiled model against real Boxer.make/run (exhaustive single transitions on all forests <= 5 boxes in thorough) "
                   "and by translator-regenerated statement tables (gen_* theorems: unpack order, exen argument, phase call order, end reversal).")
     level_note = ("Trusted: Lean kernel + propext/Classical.choice/Quot.sound; the AST translator harness/extract/box.py; that the sampled correspondence is "
                   "representative (box identity = declaration index, acts opaque and non-raising, need/preact truth scripted per tick); "
                   "'boxes left / kept / arrived' are exen's split of the two piles at the first difference or at the destination (forced re-entry), "
                   "as the exen docstring defines them; fork_separates_piles proves that outside forced re-entry nothing below the fork is shared.")
-    quick_n = 2000
+    quick_n = 1500
     thorough_n = 40000
-    rule = ("cases: ordered forest of <= 7 boxes (any declaration order), 0-3 recording acts in each of the 8 action nabes of every box, "
-            "preacts and goacts whose truth at each tick is a bit mask, optional first box, 1-10 ticks, optional end tick. "
+    rule = ("cases: ordered forest of 0-7 boxes (any declaration order), 0-3 recording acts in each of the 8 action nabes of every box, "
+            "preacts and goacts whose truth at each tick is a bit mask, optional first box, 0-10 ticks, optional end tick; options: 7 declaration-style bits "
+            "(over/dest as name, Box, '' or next; at()+do vs do(nabe=); interleaved declaration; first via attribute), drive mode (make+send, direct construction, "
+            "BoxerDoer under a Doist), acts that raise one of 13 exception classes (incl. BaseException kinds) at a chosen executed event and tick, acts "
+            "(preacts and goacts included) that set the end bag, re-run of the same Boxer, a neighbour Boxer sharing the Hold. "
             "Three generators: scripted walks (one chosen transition per pass, 25% with a failing entry precondition), chaotic masks "
             "(several goacts firing in one pass), exhaustive single transitions per shape (thorough). "
             "non-trivial = at least one pass in which a goact fired (transition attempted); distinct by request line")
     trusted_base = ["correspondence harness/props/C25.py + harness/areas/box.py: compiled model driver vs real Boxer.make/run on the same case",
                     "recording acts/needs are harness-side callables installed through the public do()/go() verbs",
                     "modelled: box identity as declaration index, Hold end flag as a scripted tick"]
-    assumptions = ["boxworks are built by Boxer.make/bx (over declared before under), nobody reads Box.pile during make (pile cache)",
-                   "acts do not raise and do not mutate the boxwork"]
+    assumptions = ["boxworks are built by Boxer.make/bx or linked consistently by hand (over declared before under), nobody reads Box.pile during make (pile cache)",
+                   "acts may raise, set the end bag and read the Boxer, but do not mutate the boxwork's links",
+                   "under a Doist an act raising GeneratorExit is the scheduler's forced-close path (C01..), not generated here"]
 
     def extract(self):
         from ..extract import box as xb
@@ -203,7 +262,8 @@ class C25(core.Check):
         R = (1, 2, 1, 2, 1, 1, 2, 2)
         c = []
         # F40: two retained boxes with rexdo/rendo acts: a>b>(c,d), c -> d
-        c.append(([(-1, R, [], []), (0, R, [], []), (1, R, [], [(3, 0b100)]), (1, R, [], [])], -1, 3, -1))
+        f40 = ([(-1, R, [], []), (0, R, [], []), (1, R, [], [(3, 0b100)]), (1, R, [], [])], -1, 3, -1)
+        c.append(f40)
         # F41: a>(b,c); start in c (not primary under); a declares go to a sibling tree d
         c.append(([(-1, R, [], [(3, 0b1000)]), (0, R, [], [(2, 0b100)]), (0, R, [], []), (-1, R, [], [])], -1, 4, -1))
         # F52: a, b top-level; a go b fires every pass, b's preact never satisfied after tick 0
@@ -214,24 +274,60 @@ class C25(core.Check):
         c.append(([(-1, R, [], []), (0, R, [], []), (0, R, [], [(0, 0b100), (2, 0b1000)]), (2, R, [], [(2, 0b10000)])], 3, 5, 6))
         # first entry precondition fails
         c.append(([(-1, R, [0b0], []), (0, R, [], [])], -1, 2, -1))
+        # --- hardening pass ---
+        # degenerate: empty boxwork, no sends, a box with no acts at all, end bag set before next() / before first pass
+        c.append(([], -1, 2, -1))
+        c.append(([(-1, R, [], [])], -1, 0, -1))
+        c.append(([(-1, (0,) * 8, [], [(0, 0b100)])], -1, 3, -1))
+        c.append(([(-1, R, [], []), (0, R, [], [])], -1, 3, 0))
+        c.append(([(-1, R, [], []), (0, R, [], [])], -1, 3, 1))
+        # every way of declaring the same boxwork / driving it
+        for style, mode in ((127, 0), (0, 1), (0, 2), (85, 2), (42, 0)):
+            c.append(f40 + ((style, mode, [], [], 0, 0),))
+        # end while the active box is a non-leaf (dest b has under c): the whole pile incl. c is exited
+        c.append(([(-1, R, [], [(1, 0b100)]), (-1, R, [], []), (1, R, [], []), (2, R, [], [])], -1, 3, 3))
+        # an act raising in every phase of a transition (BaseException kinds too), under Doist as well
+        for nb, b, nm, mode in (("exdo", 2, "ValueError", 0), ("rexdo", 0, "KeyboardInterrupt", 0), ("rendo", 1, "SystemExit", 0),
+                                ("enmark", 3, "CancelledError", 1), ("redo", 3, "OSError", 2), ("godo", 2, "TypeError", 0),
+                                ("afdo", 1, "GeneratorExit", 1)):
+            c.append(f40 + ((0, mode, [(b, nb, 0, 2, nm)], [], 0, 0),))
+        # a preact with a side effect: sets the end bag while refusing the transition -> next pass ends
+        c.append(([(-1, R, [], [(1, 0b1100)]), (-1, R, [0b0011], [])], -1, 4, -1, (0, 0, [], [(1, "predo", 0)], 0, 0)))
+        # an endo act that ends (what do('end') does), re-run of the same Boxer afterwards, neighbour boxer on the same hold
+        c.append(f40[:3] + (-1, (0, 0, [], [(3, "endo", 1)], 1, 1)))
+        c.append(f40 + ((0, 1, [], [], 1, 1),))
+        # exception raised by the ending pass and by the very first predo
+        c.append(([(-1, R, [], []), (0, R, [], [])], -1, 3, 2, (0, 0, [(1, "exdo", 1, 2, "RuntimeError")], [], 1, 0)))
+        c.append(([(-1, R, [0b1], []), (0, R, [], [])], -1, 3, -1, (0, 2, [(0, "predo", 0, 0, "HierError")], [], 0, 0)))
         return c
 
+    @staticmethod
+    def _fault_positions(base):
+        """the base case with a raise at EVERY event it executes (one case per position)"""
+        out = []
+        for (t, E, _, _) in expected_round(base, with_faults=False):
+            for i, (b, nb, k, _) in enumerate(E):
+                nm = ab.EXC_NAMES[(t + i) % len(ab.EXC_NAMES)]
+                mode = (t + i) % 3
+                if mode == 2 and nm == "GeneratorExit":   # Doer.do treats GeneratorExit as a forced close (scheduler's business)
+                    mode = 0
+                out.append(base[:4] + ((0, mode, [(b, nb, k, t, nm)], [], 0, 0),))
+        return out
+
     def exhaustive(self, tier):
-        if tier != "thorough":
-            cs = []
-            for n in range(1, 4):
-                for ps in ab.all_shapes(n):
-                    cs += ab.single_transitions(ps)
-            return cs, "every ordered forest of <= 3 boxes x every (start, declaring box, dest) single transition x (pass | failing preact on each arrived box), then end"
-        cs = []
-        for n in range(1, 6):
+        R = (1, 2, 1, 2, 1, 1, 2, 2)
+        f40 = ([(-1, R, [], []), (0, R, [], []), (1, R, [], [(3, 0b100)]), (1, R, [1], [])], -1, 3, 3)
+        cs = self._fault_positions(f40)
+        top = 3 if tier != "thorough" else 5
+        for n in range(1, top + 1):
             for ps in ab.all_shapes(n):
                 cs += ab.single_transitions(ps)
-        return cs, "every ordered forest of <= 5 boxes x every (start, declaring box, dest) single transition x (pass | failing preact on each arrived box), then end"
+        return cs, (f"every ordered forest of <= {top} boxes x every (start, declaring box, dest) single transition x (pass | failing preact "
+                    "on each arrived box), then end; one transition+end run with a raise at every executed event position")
 
     def generate(self, rng, n, tier):
         for _ in range(n):
-            nb = rng.choice([2, 3, 3, 4, 4, 5, 5, 6, 7])
+            nb = rng.choice([1, 2, 3, 3, 4, 4, 5, 5, 6, 7])
             if rng.random() < 0.3:
                 ps = rng.choice(ab.all_shapes(min(nb, 6)))
                 nb = len(ps)
@@ -239,10 +335,38 @@ class C25(core.Check):
                 ps = ab.random_parents(rng, nb)
             if rng.random() < 0.6:
                 first = rng.choice([-1, rng.randrange(nb)])
-                yield ab.scripted(rng, ps, rng.randrange(1, 9), fail_p=rng.choice([0.0, 0.25, 0.5]),
-                                  rich=rng.random() < 0.6, first=first)
+                base = ab.scripted(rng, ps, rng.randrange(1, 9), fail_p=rng.choice([0.0, 0.25, 0.5]),
+                                   rich=rng.random() < 0.6, first=first)
             else:
-                yield ab.chaotic(rng, ps, rng.randrange(2, 9))
+                base = ab.chaotic(rng, ps, rng.randrange(2, 9))
+            yield self._with_opts(rng, base)
+
+    def _with_opts(self, rng, base):
+        """add declaration style, drive mode, faults and side effects"""
+        style = rng.choice([0, 0, rng.randrange(128), rng.randrange(128)])
+        mode = rng.choice([0, 0, 0, 1, 2, 2])
+        raises, enders = [], []
+        trace = None
+        if rng.random() < 0.3 or rng.random() < 0.25:
+            trace = [(t, e) for (t, E, _, _) in expected_round(base, with_faults=False) for e in E]
+        if trace and rng.random() < 0.55:
+            # raise at an event that really runs; bias to late ticks (multi-pass history before the fault)
+            t, (b, nb, k, _) = rng.choice(trace[len(trace) // 2:] if rng.random() < 0.5 else trace)
+            raises.append((b, nb, k, t, rng.choice(ab.EXC_NAMES)))
+            if rng.random() < 0.2:
+                t, (b, nb, k, _) = rng.choice(trace)
+                raises.append((b, nb, k, t, rng.choice(ab.EXC_NAMES)))
+        if trace and rng.random() < 0.5:
+            for _ in range(rng.choice([1, 1, 2])):
+                t, (b, nb, k, _) = rng.choice(trace)
+                enders.append((b, nb, k))
+        if mode == 2:   # Doer.do treats GeneratorExit as a forced close (scheduler's business, not C25's)
+            raises = [(b, nb, k, t, "MemoryError" if nm == "GeneratorExit" else nm) for (b, nb, k, t, nm) in raises]
+        rerun = 1 if rng.random() < 0.15 else 0
+        neighbour = 1 if rng.random() < 0.15 else 0
+        if (style, mode, raises, enders, rerun, neighbour) == ab.NOOPTS:
+            return base
+        return base[:4] + ((style, mode, raises, enders, rerun, neighbour),)
 
     def request(self, case):
         return ab.request(case)
@@ -255,47 +379,91 @@ class C25(core.Check):
 
     def nontrivial(self, case, obs):
         boxes = case[0]
-        for r in obs[:-1]:
-            for (b, nabe, k) in r[2]:
-                if nabe == "godo" and r[0] >= 2 and _bit(boxes[b][3][k][1], r[0]):
-                    return True
+        try:
+            for r in obs:
+                if not isinstance(r[0], int):
+                    continue
+                for e in r[2]:
+                    if e[1] == "godo" and r[0] >= 2 and _bit(boxes[e[0]][3][e[2]][1], r[0]):
+                        return True
+        except Exception:
+            pass
         return False
 
     def features(self, case, obs):
-        boxes, first, ticks, endat = case
-        f = [f"boxes={len(boxes)}", "final=" + "-".join(str(x) for x in obs[-1])]
-        active = first if first >= 0 else 0
-        for r in obs[:-1]:
-            t, after, evs = r
-            if t < 2:
-                continue
-            fired = [(b, k) for (b, nabe, k) in evs if nabe == "godo" and _bit(boxes[b][3][k][1], t)]
-            moved = any(e[1] in ("exdo", "enmark", "endo") for e in evs) and not (endat >= 0 and t >= endat)
-            for (b, k) in fired[:-1] if moved else fired:
-                f.append("attempt:failed-predo")
-            if moved and fired:
-                b, k = fired[-1]
-                f.append("transition:" + ab.relation(boxes, active, boxes[b][3][k][0]))
-                kept, left, arr = ab.split(boxes, active, boxes[b][3][k][0])
-                f.append(f"kept={len(kept)}")
-                if b != active:
-                    f.append("declared-by:non-active-box")
-                if ab.pile_of(boxes, b) != ab.pile_of(boxes, active):
-                    f.append("declarer-pile!=active-pile")
-            if len(fired) > 1:
-                f.append("several-goacts-fired-in-pass")
-            if after is not None:
-                active = after
-        if endat >= 0 and obs[-1] == ("ret", True):
-            f.append(f"end:pile={len(ab.pile_of(boxes, active))}")
+        boxes, first, ticks, endat, (style, mode, raises, enders, rerun, neighbour) = ab.parts(case)
+        f = [f"boxes={len(boxes)}", f"mode={('make', 'direct', 'doist')[mode]}"]
+        f += ["final=" + "-".join(str(x) for x in r) for r in obs if not isinstance(r[0], int)]
+        if style:
+            f.append("style:nonstandard-declaration")
+        if rerun and mode != 2:
+            f.append("rerun-same-boxer")
+        if neighbour and mode != 2:
+            f.append("neighbour-boxer-on-hold")
+        try:
+            exp = expected_round(case)
+            plain = expected_round(case, with_faults=False)
+            for (t, E, after, fin) in exp:
+                if fin and fin[0] == "exc" and E:
+                    f.append(f"raise-in:{E[-1][1]}")
+                    f.append(f"raise:{fin[1]}")
+                    f.append("raise-at-tick>=3" if t >= 3 else f"raise-at-tick={t}")
+            for (b, nb, k) in enders:
+                f.append(f"ender-in:{nb}")
+            if exp and exp[-1][3] == ("ret", True):
+                if not (endat >= 0 and exp[-1][0] >= endat):
+                    f.append("end:by-act")
+                P = ab.pile_of(boxes, exp[-1][1][0][3]) if exp[-1][1] else []
+                f.append(f"end:pile={len(P)}")
+                act = exp[-2][2] if len(exp) > 1 else None
+                if act is not None and any(b[0] == act for b in boxes):
+                    f.append("end:active-box-nonleaf")
+            active = first if first >= 0 else 0
+            for (t, E, after, fin) in exp:
+                if t >= 2 and fin != ("ret", True):
+                    fired = [(e[0], e[2]) for e in E if e[1] == "godo" and _bit(boxes[e[0]][3][e[2]][1], t)]
+                    moved = after is not None and any(e[3] != active for e in E)
+                    selfmove = after == active and any(e[1] in ("exdo", "endo", "enmark") for e in E)
+                    if fired and (moved or selfmove):
+                        b, k = fired[-1]
+                        f.append("transition:" + ab.relation(boxes, active, boxes[b][3][k][0]))
+                        f.append(f"kept={len(ab.split(boxes, active, boxes[b][3][k][0])[0])}")
+                        if ab.pile_of(boxes, b) != ab.pile_of(boxes, active):
+                            f.append("declarer-pile!=active-pile")
+                        fired = fired[:-1]
+                    f += ["attempt:failed-predo"] * len(fired)
+                    if len(fired) > 1:
+                        f.append("several-goacts-fired-in-pass")
+                if after is not None:
+                    active = after
+        except Exception:
+            f.append("features-failed")
         return f
 
     def shrink(self, case):
-        boxes, first, ticks, endat = case
+        boxes, first, ticks, endat, opts = ab.parts(case)
+        style, mode, raises, enders, rerun, neighbour = opts
         n = len(boxes)
+
+        def mk(bx, fi, ti, en, o=opts):
+            return (bx, fi, ti, en) if tuple(o) == ab.NOOPTS else (bx, fi, ti, en, o)
+        # simplify the options first
+        if style:
+            yield mk(boxes, first, ticks, endat, (0, mode, raises, enders, rerun, neighbour))
+        if mode:
+            yield mk(boxes, first, ticks, endat, (style, 0, raises, enders, rerun, neighbour))
+        if rerun:
+            yield mk(boxes, first, ticks, endat, (style, mode, raises, enders, 0, neighbour))
+        if neighbour:
+            yield mk(boxes, first, ticks, endat, (style, mode, raises, enders, rerun, 0))
+        for j in range(len(raises)):
+            yield mk(boxes, first, ticks, endat, (style, mode, raises[:j] + raises[j + 1:], enders, rerun, neighbour))
+        for j in range(len(enders)):
+            yield mk(boxes, first, ticks, endat, (style, mode, raises, enders[:j] + enders[j + 1:], rerun, neighbour))
+        used = {b for (b, *_r) in raises} | {b for (b, *_r) in enders}
         # drop a leaf box that nobody targets
         for i in reversed(range(n)):
-            if any(b[0] == i for b in boxes) or i == first:
+            if any(b[0] == i for b in boxes) or i == first or i in used or (used and i < max(used)):
                 continue
             if any(d == i for b in boxes for d, _ in b[3]):
                 continue
@@ -306,30 +474,32 @@ class C25(core.Check):
                 if j == i:
                     continue
                 nb.append((p - 1 if p > i else p, c, pres, [(d - 1 if d > i else d, m) for d, m in gos]))
-            yield (nb, first - 1 if first > i else first, ticks, endat)
+            yield mk(nb, first - 1 if first > i else first, ticks, endat)
         if ticks > 1:
-            yield (boxes, first, ticks - 1, endat if endat <= ticks - 1 else -1)
+            yield mk(boxes, first, ticks - 1, endat if endat <= ticks - 1 else -1)
         if endat >= 0:
-            yield (boxes, first, ticks, -1)
+            yield mk(boxes, first, ticks, -1)
         for i, (p, c, pres, gos) in enumerate(boxes):
             for j in range(len(gos)):
-                yield (boxes[:i] + [(p, c, pres, gos[:j] + gos[j + 1:])] + boxes[i + 1:], first, ticks, endat)
+                if not any(b == i and nb == "godo" for (b, nb, *_r) in list(raises) + list(enders)):
+                    yield mk(boxes[:i] + [(p, c, pres, gos[:j] + gos[j + 1:])] + boxes[i + 1:], first, ticks, endat)
             for j in range(len(pres)):
-                yield (boxes[:i] + [(p, c, pres[:j] + pres[j + 1:], gos)] + boxes[i + 1:], first, ticks, endat)
-            if any(x > 1 for x in c):
-                yield (boxes[:i] + [(p, tuple(min(x, 1) for x in c), pres, gos)] + boxes[i + 1:], first, ticks, endat)
+                if not any(b == i and nb == "predo" for (b, nb, *_r) in list(raises) + list(enders)):
+                    yield mk(boxes[:i] + [(p, c, pres[:j] + pres[j + 1:], gos)] + boxes[i + 1:], first, ticks, endat)
+            if any(x > 1 for x in c) and i not in used:
+                yield mk(boxes[:i] + [(p, tuple(min(x, 1) for x in c), pres, gos)] + boxes[i + 1:], first, ticks, endat)
         if first >= 0:
-            yield (boxes, -1, ticks, endat)
+            yield mk(boxes, -1, ticks, endat)
 
     def mutate(self, rng, case):
-        boxes, first, ticks, endat = case
+        boxes, first, ticks, endat, opts = ab.parts(case)
         out = list(self.shrink(case))
         n = len(boxes)
-        for _ in range(6):
+        for _ in range(6 if n else 0):
             i = rng.randrange(n)
             p, c, pres, gos = boxes[i]
             g2 = list(gos) + [(rng.randrange(n), 1 << rng.randrange(2, ticks + 2))]
-            out.append((boxes[:i] + [(p, c, pres, g2)] + boxes[i + 1:], first, ticks + 1, endat))
+            out.append((boxes[:i] + [(p, c, pres, g2)] + boxes[i + 1:], first, ticks + 1, endat, opts))
         return out
 
     def known(self, case, obs, clauses):
